@@ -385,7 +385,14 @@ func (s *Sim) Fail(clause, format string, args ...interface{}) {
 //
 //go:norace
 func (s *Sim) FailK(clause, key, format string, args ...interface{}) {
-	msg := fmt.Sprintf(format, args...)
+	s.failRaw(clause, key, fmt.Sprintf(format, args...))
+}
+
+// failRaw records a failure without formatting (usable on the scheduler
+// goroutine, where fmt's pooled printers must not be touched).
+//
+//go:norace
+func (s *Sim) failRaw(clause, key, msg string) {
 	s.lock()
 	s.failures = append(s.failures, Failure{clause, key, msg, s.Step, s.seq})
 	// the message may carry a stack trace (goroutine ids, addresses): keep it out of the trace hash
